@@ -34,6 +34,7 @@ import (
 	"github.com/EliCDavis/polyform/math/quaternion"
 	"github.com/EliCDavis/polyform/math/trs"
 	"github.com/EliCDavis/polyform/modeling"
+	"github.com/EliCDavis/polyform/modeling/extrude"
 	"github.com/EliCDavis/polyform/modeling/meshops"
 	"github.com/EliCDavis/polyform/modeling/primitives"
 	"github.com/EliCDavis/polyform/modeling/repeat"
@@ -65,6 +66,7 @@ type c01Hist struct {
 	step     int
 	keep     []any // caller-owned slices/maps handed to the library (kept alive, never mutated)
 	redo     []c01Redo
+	usedB    []int
 	lastOp   string
 	reported map[int]bool
 }
@@ -541,26 +543,142 @@ func (h *c01Hist) topo() modeling.Topology {
 	}
 }
 
+// signed / zero / unusual extents: primitives must not write through package-level tables or earlier instances
+// whatever their parameters are (mirrored, degenerate, tiny, large)
+func (h *c01Hist) ext() float64 {
+	return []float64{-3, -2, -1, -0.5, 0, 0.25, 1, 1, 2, 3, 1e-9, 1e6}[h.c.Rng.Intn(12)]
+}
+
+func (h *c01Hist) pts3(n int) []vector3.Float64 {
+	out := make([]vector3.Float64, n)
+	for i := range out {
+		out[i] = vector3.New(float64(i)*h.ext(), float64(i), h.ext())
+	}
+	return out
+}
+
+type c01Builder struct {
+	name string
+	f    func(h *c01Hist) modeling.Mesh
+}
+
+// every mesh builder of modeling/primitives, modeling/extrude and the repeat helpers, with drawn parameters
+var c01Builders = []c01Builder{
+	{"cube.welded", func(h *c01Hist) modeling.Mesh {
+		c := primitives.Cube{Height: h.ext(), Width: h.ext(), Depth: h.ext()}
+		if h.c.Rng.Intn(2) == 0 {
+			c.UVs = primitives.DefaultCubeUVs()
+		}
+		if c.Height*c.Width*c.Depth < 0 {
+			h.c.Note("gen.cube.welded.mirrored")
+		}
+		return c.Welded()
+	}},
+	{"cube.unit", func(h *c01Hist) modeling.Mesh { return primitives.UnitCube() }},
+	{"cube.unwelded", func(h *c01Hist) modeling.Mesh {
+		c := primitives.Cube{Height: h.ext(), Width: h.ext(), Depth: h.ext()}
+		if h.c.Rng.Intn(2) == 0 {
+			c.UVs = primitives.DefaultCubeUVs()
+		}
+		return c.UnweldedQuads()
+	}},
+	{"quad", func(h *c01Hist) modeling.Mesh {
+		q := primitives.Quad{Width: h.ext(), Depth: h.ext()}
+		if h.c.Rng.Intn(2) == 0 {
+			q.UVs = primitives.DefaultCubeUVs().Top
+		}
+		return q.ToMesh()
+	}},
+	{"uvsphere", func(h *c01Hist) modeling.Mesh {
+		return primitives.UVSphere(h.ext(), 1+h.c.Rng.Intn(5), 2+h.c.Rng.Intn(5))
+	}},
+	{"uvsphere.unwelded", func(h *c01Hist) modeling.Mesh {
+		return primitives.UVSphereUnwelded(h.ext(), 1+h.c.Rng.Intn(5), 2+h.c.Rng.Intn(5))
+	}},
+	{"cylinder", func(h *c01Hist) modeling.Mesh {
+		return primitives.Cylinder{Sides: 2 + h.c.Rng.Intn(7), Height: h.ext(), Radius: h.ext(),
+			NoTop: h.c.Rng.Intn(3) == 0, NoBottom: h.c.Rng.Intn(3) == 0}.ToMesh()
+	}},
+	{"circle", func(h *c01Hist) modeling.Mesh {
+		c := primitives.Circle{Sides: 2 + h.c.Rng.Intn(7), Radius: h.ext()}
+		if h.c.Rng.Intn(2) == 0 {
+			c.UVs = &primitives.CircleUVs{Center: vector2.New(0.5, 0.5), Radius: 0.5}
+		}
+		return c.ToMesh()
+	}},
+	{"cone", func(h *c01Hist) modeling.Mesh {
+		return primitives.Cone{Height: h.ext(), Radius: h.ext(), Sides: 2 + h.c.Rng.Intn(6)}.ToMesh()
+	}},
+	{"hemisphere", func(h *c01Hist) modeling.Mesh {
+		return primitives.Hemisphere{Radius: h.ext(), Capped: h.c.Rng.Intn(2) == 0}.UV(1+h.c.Rng.Intn(4), 2+h.c.Rng.Intn(5))
+	}},
+	{"extrude.polygon", func(h *c01Hist) modeling.Mesh {
+		ps := make([]extrude.ExtrusionPoint, 1+h.c.Rng.Intn(4))
+		for i := range ps {
+			ps[i] = extrude.ExtrusionPoint{Point: vector3.New(0., float64(i), h.ext()), Thickness: h.ext()}
+			if h.c.Rng.Intn(3) == 0 {
+				ps[i].UV = &extrude.ExtrusionPointUV{Point: vector2.New(0.5, float64(i)), Thickness: 1}
+			}
+		}
+		return extrude.Polygon(2+h.c.Rng.Intn(5), ps)
+	}},
+	{"extrude.circle", func(h *c01Hist) modeling.Mesh {
+		return extrude.Circle{Resolution: 3 + h.c.Rng.Intn(4), Radius: h.ext(), Path: h.pts3(2 + h.c.Rng.Intn(3)), ClosePath: h.c.Rng.Intn(2) == 0}.Extrude()
+	}},
+	{"extrude.line", func(h *c01Hist) modeling.Mesh {
+		ps := make([]extrude.LinePoint, 1+h.c.Rng.Intn(4))
+		for i := range ps {
+			ps[i] = extrude.LinePoint{Point: vector3.New(float64(i), 0., h.ext()), Up: vector3.Up[float64](), Width: h.ext(), Height: h.ext(), UvWidth: 1}
+		}
+		return extrude.Line(ps)
+	}},
+	{"extrude.shape", func(h *c01Hist) modeling.Mesh {
+		shape := []vector2.Float64{vector2.New(h.ext(), 0.), vector2.New(0., h.ext()), vector2.New(-1., -1.), vector2.New(1., -1.)}[:2+h.c.Rng.Intn(3)]
+		if h.c.Rng.Intn(2) == 0 {
+			return extrude.ClosedShape(shape, h.pts3(2+h.c.Rng.Intn(3)))
+		}
+		return extrude.Shape(shape, h.pts3(2+h.c.Rng.Intn(3)))
+	}},
+	{"repeat.circle", func(h *c01Hist) modeling.Mesh {
+		return repeat.Mesh(primitives.Cube{Height: h.ext(), Width: h.ext(), Depth: 1}.Welded(), repeat.Circle(h.c.Rng.Intn(4), h.ext()))
+	}},
+	{"repeat.line", func(h *c01Hist) modeling.Mesh {
+		return repeat.Mesh(primitives.Quad{Width: h.ext(), Depth: 1}.ToMesh(), repeat.Line(vector3.Zero[float64](), vector3.New(h.ext(), 0., 1.), h.c.Rng.Intn(3)))
+	}},
+	{"repeat.fibonacci", func(h *c01Hist) modeling.Mesh {
+		return repeat.Mesh(primitives.UnitCube(), repeat.FibonacciSphere(1+h.c.Rng.Intn(4), h.ext()))
+	}},
+	{"empty", func(h *c01Hist) modeling.Mesh { return modeling.EmptyMesh(h.topo()) }},
+}
+
+// a library-built mesh: often a builder already used in this history (a SECOND instance while the first is live)
+func (h *c01Hist) builtMesh() (m modeling.Mesh, ok bool) {
+	k := h.c.Rng.Intn(len(c01Builders))
+	if len(h.usedB) > 0 && h.c.Rng.Intn(2) == 0 {
+		k = h.usedB[h.c.Rng.Intn(len(h.usedB))]
+		h.c.Note("gen.again")
+	}
+	b := c01Builders[k]
+	defer func() {
+		if r := recover(); r != nil {
+			if c01Debug {
+				fmt.Fprintf(os.Stderr, "panic in builder %s: %v\n", b.name, r)
+			}
+			h.c.Note("gen.panic." + b.name)
+			ok = false
+		}
+	}()
+	m = b.f(h)
+	h.usedB = append(h.usedB, k)
+	h.c.Note("gen." + b.name)
+	return m, true
+}
+
 func (h *c01Hist) newBase() modeling.Mesh {
-	switch x := h.c.Rng.Intn(100); {
-	case x < 8:
-		h.c.Note("gen.cube.welded") // every welded cube carries the package-level cubeVertIndices slice
-		return primitives.Cube{Height: 1 + float64(h.c.Rng.Intn(3)), Width: 1, Depth: 2, UVs: primitives.DefaultCubeUVs()}.Welded()
-	case x < 12:
-		h.c.Note("gen.cube.unit")
-		return primitives.UnitCube()
-	case x < 16:
-		h.c.Note("gen.cube.unwelded")
-		return primitives.Cube{Height: 1, Width: 2, Depth: 1}.UnweldedQuads()
-	case x < 20:
-		h.c.Note("gen.uvsphere")
-		return primitives.UVSphere(1, 2+h.c.Rng.Intn(3), 3+h.c.Rng.Intn(3))
-	case x < 23:
-		h.c.Note("gen.quad")
-		return primitives.Quad{Width: 1 + float64(h.c.Rng.Intn(2)), Depth: 2, UVs: primitives.DefaultCubeUVs().Top}.ToMesh()
-	case x < 26:
-		h.c.Note("gen.empty")
-		return modeling.EmptyMesh(h.topo())
+	if h.c.Rng.Intn(100) < 45 {
+		if m, ok := h.builtMesh(); ok {
+			return m
+		}
 	}
 	h.c.Note("gen.random")
 	return h.randomMesh(h.topo(), c01Sizes[h.c.Rng.Intn(len(c01Sizes))])
@@ -1186,8 +1304,11 @@ func runC01(c *Ctx) {
 		}
 		ops := 1 + c.Rng.Intn(maxOps)
 		for k := 0; k < ops; k++ {
-			if c.Rng.Intn(6) == 0 && len(h.pool) < 40 {
+			if c.Rng.Intn(4) == 0 && len(h.pool) < 40 {
+				h.step++
+				h.lastOp = "construct"
 				h.enter(h.newBase())
+				h.checkAll() // building a new mesh must not disturb the live ones (package-level tables!)
 			}
 			h.doOp(c01OpNames[c.Rng.Intn(len(c01OpNames))])
 		}
